@@ -449,11 +449,13 @@ class ListProto(object):
     def classify(self, op):
         """'wf' | 'ill' (must raise, change nothing) | 'unspec'"""
         try:
+            self.unspec_reason = ''
             l2 = ListProto(self.kind)
             l2.l = self.copy_state()
             r = l2.apply(op)
             return 'ill' if r in ('lookup', 'lib', 'value') else 'wf'
-        except Unspecified:
+        except Unspecified as why:
+            self.unspec_reason = str(why)
             return 'unspec'
 
     def _set(self, i, a, err):
